@@ -19,6 +19,31 @@ OP_ASSIGN = {'ops::AddAssign::add_assign': 'std::ops::Add::add', 'ops::SubAssign
              'ops::RemAssign::rem_assign': 'std::ops::Rem::rem'}
 
 
+import re as _re
+_PROMOTED_RX = _re.compile(r'promoted\[(\d+)\]$')
+PROMOTED = {}          # def path of a promoted body -> Body (filled by core.Facts)
+_PROMOTED_CACHE = {}
+
+
+def promoted_value(body, idx):
+    owner = body.d.get('promoted_of') or body.defp
+    key = '%s::promoted[%d]' % (owner, idx)
+    if key in _PROMOTED_CACHE:
+        return _PROMOTED_CACHE[key]
+    pb = PROMOTED.get(key)
+    val = None
+    if pb is not None:
+        _PROMOTED_CACHE[key] = None     # recursion guard
+        try:
+            rets = [p.ret for p in SymEx(pb, max_paths=50).run() if p.end == 'return']
+            if len(rets) == 1:
+                val = rets[0]
+        except Exception:
+            val = None
+    _PROMOTED_CACHE[key] = val
+    return val
+
+
 class TooManyPaths(Exception):
     pass
 
@@ -300,7 +325,13 @@ class SymEx:
                 return ('fn', c['fn'].get('res') or c['fn']['def'])
             if 'val' in c:
                 return ('const', c['val'])
-            return ('const', c.get('repr', c['ty']))
+            r = c.get('repr', c['ty'])
+            m = _PROMOTED_RX.search(r) if isinstance(r, str) else None
+            if m:
+                v = promoted_value(self.body, int(m.group(1)))
+                if v is not None:
+                    return v
+            return ('const', r)
         return ('undef', 'op')
 
     def rvalue(self, st, rv):
